@@ -305,6 +305,12 @@ def construct_models_in_parallel(sample, chr_id, dump_filename, args, read_group
         for read_assignment in assignment_storage:
             if read_assignment is None:
                 continue
+            if args.count_exons and not gene_info.empty() and not read_assignment.exon_gene_profile:
+                # the exon / intron profiles are computed while the alignments are collected, and only with --count_exons;
+                # a computed exon profile has one entry per annotated exon, so an empty one means the saved read
+                # assignments do not hold them: the tables would be written without a single row
+                raise ValueError("Read assignments contain no exon / intron profiles: they were collected without "
+                                 "--count_exons, rerun from the alignments to count exons and introns")
             aggregator.read_stat_counter.add(read_assignment.assignment_type)
             aggregator.global_printer.add_read_info(read_assignment)
             aggregator.global_counter.add_read_info(read_assignment)
